@@ -1,6 +1,7 @@
 package main
 
 import (
+	"encoding/json"
 	"bytes"
 	"fmt"
 	"net"
@@ -26,9 +27,10 @@ type c09op struct {
 }
 
 type c09sys struct {
-	x   *expSession
-	ops []c09op
-	ts  []*expTmpl
+	x    *expSession
+	ops  []c09op
+	ts   []*expTmpl
+	json bool // SendJSONRecord: templates are only registered, every data record is written as one JSON document
 }
 
 func c09Tmpls() []*expTmpl {
@@ -39,6 +41,8 @@ func c09Tmpls() []*expTmpl {
 		mkTmpl(258, []string{"sourceIPv4Address", "sourceIPv6Address", "sourceMacAddress", "sourceTransportPort"}, []uint32{0, 0, 0, 0}),
 		// a template too large for one message: 16400 one-byte fields = 16 + 4 + 4 + 65600 bytes
 		c09Huge(),
+		// fixed-length octet array (user-defined enterprise element) + u16 sentinel
+		mkTmpl(260, []string{"verifFixedOctets8", "sourceTransportPort"}, []uint32{55555, 0}),
 	}
 }
 
@@ -68,6 +72,10 @@ func c09Ops(sizes bool) []c09op {
 		{"Data(typed, MAC of 7 bytes)", "illtyped", 2, 1, 3},
 		{"Data(typed, 2nd record IPv6 in ipv4Address)", "illtyped", 2, 2, 4},
 		{"Data(typed, 4-byte IPv4 net.IP in ipv6Address: refused or sent as ::ffff:a.b.c.d)", "v4in6", 2, 2, 0},
+		{"Tmpl(fixedoct)", "tmpl", 4, 0, 0}, {"Data(fixedoct,2)", "data", 4, 2, 0},
+		{"Data(fixedoct, 3 octets for the 8-octet element)", "illtyped", 4, 1, 5},
+		{"Data(fixedoct, 2nd record 9 octets for the 8-octet element)", "illtyped", 4, 2, 6},
+		{"Data(fixedoct, no octets for the 8-octet element)", "illtyped", 4, 1, 7},
 	}
 	if sizes {
 		ops = []c09op{{"Tmpl(b)", "tmpl", 1, 0, 0}, {"Data(a,1) [no template a]", "unknown-a", 0, 1, 0}}
@@ -158,6 +166,12 @@ func (s *c09sys) Apply(opi int) (v *xplore.Violation) {
 					els[2] = entities.NewMacAddressInfoElement(t.ies[2], net.HardwareAddr([]byte{1, 2, 3, 4, 5}))
 				case 3:
 					els[2] = entities.NewMacAddressInfoElement(t.ies[2], net.HardwareAddr([]byte{1, 2, 3, 4, 5, 6, 7}))
+				case 5:
+					els[0] = entities.NewOctetArrayInfoElement(t.ies[0], []byte{1, 2, 3})
+				case 6:
+					els[0] = entities.NewOctetArrayInfoElement(t.ies[0], []byte{1, 2, 3, 4, 5, 6, 7, 8, 9})
+				case 7:
+					els[0] = entities.NewOctetArrayInfoElement(t.ies[0], []byte{})
 				}
 			}
 			set.AddRecord(els, t.ref.ID)
@@ -223,6 +237,11 @@ func (s *c09sys) Apply(opi int) (v *xplore.Violation) {
 			mustFail = fmt.Sprintf("message of %d bytes exceeds 65535", op.arg)
 		}
 	}
+	if s.json && isTemplate {
+		// nothing is written for a template in JSON mode, so neither its size nor a failing connection matters
+		mustFail = ""
+		x.conn.FailWrites = 0
+	}
 	if !isTemplate && mustFail == "" && !x.sent[t.ref.ID] {
 		mustFail = fmt.Sprintf("no template with id %d was transmitted on this exporting process", t.ref.ID)
 	}
@@ -256,6 +275,27 @@ func (s *c09sys) Apply(opi int) (v *xplore.Violation) {
 			kind = "data-without-template"
 		}
 		return xplore.V(kind, "%s: transmitted %d bytes although %s", op.name, len(ws[0]), mustFail)
+	}
+	if s.json {
+		if isTemplate {
+			x.sent[t.ref.ID] = true
+			return nil
+		}
+		if len(ws) != len(ref) {
+			return xplore.V("message-count", "%s: a data set of %d records produced %d JSON documents", op.name, len(ref), len(ws))
+		}
+		total := 0
+		for i, w := range ws {
+			var doc map[string]interface{}
+			if err := json.Unmarshal(w, &doc); err != nil || doc["ipfix"] == nil {
+				return xplore.V("malformed", "%s: write #%d is not a JSON document with an ipfix member: %v (%.80q)", op.name, i, err, w)
+			}
+			total += len(w)
+		}
+		if n != total {
+			return xplore.V("byte-count", "%s: SendSet reported %d bytes, %d were written", op.name, n, total)
+		}
+		return nil
 	}
 	if len(ws) != 1 {
 		return xplore.V("message-count", "%s: one successful SendSet produced %d writes", op.name, len(ws))
@@ -292,6 +332,22 @@ func c09Configs(tier string) []*xplore.Config {
 			New:       func() xplore.Sys { return &c09sys{x: newExpSession(proto, 99, 0, time.Unix(1_700_000_000, 0)), ops: ops, ts: ts} },
 			HistDepth: hd,
 		})
+		if proto == "tcp" {
+			// JSON mode: the same refusals must leave the connection untouched although records are written one by one
+			var jops []c09op
+			for _, o := range ops {
+				if o.kind != "v4in6" && o.t != 3 && o.t != 4 { // (JSON mode cannot render octet arrays)
+					jops = append(jops, o)
+				}
+			}
+			out = append(out, &xplore.Config{
+				Name: proto + ",json,faults", NumOps: len(jops), OpName: func(i int) string { return jops[i].name },
+				New: func() xplore.Sys {
+					return &c09sys{x: newExpSession(proto, 99, 0, time.Unix(1_700_000_000, 0), true), ops: jops, ts: ts, json: true}
+				},
+				HistDepth: hd,
+			})
+		}
 		sops := c09Ops(true)
 		out = append(out, &xplore.Config{
 			Name: proto + ",sizes", NumOps: len(sops), OpName: func(i int) string { return sops[i].name },
